@@ -1,4 +1,5 @@
 import ClipVerif.Gen.Funcs
+import ClipVerif.Spec.Wind
 /-
 Hand model of `areaOP` (engine.go): the shoelace accumulator over an output ring, in the order
 and with the operand forms of the code — every term is
@@ -23,12 +24,14 @@ def areaOP (ring : List Point64) : Float :=
   | none => 0.0
   | some last => areaOPAcc last ring 0.0 * 0.5
 
-/-- the exact counterpart: twice the area as an integer -/
-def areaOPExact2 (ring : List (Int × Int)) : Int :=
+/-- the exact counterpart: the same accumulation over integers (twice the area) -/
+def areaOPExactAcc : IPt → List IPt → Int → Int
+  | _, [], acc => acc
+  | prev, cur :: rest, acc => areaOPExactAcc cur rest (acc + (prev.y + cur.y) * (prev.x - cur.x))
+
+def areaOPExact2 (ring : List IPt) : Int :=
   match ring.getLast? with
   | none => 0
-  | some last =>
-    (ring.foldl (fun (s : (Int × Int) × Int) cur =>
-      (cur, s.2 + (s.1.2 + cur.2) * (s.1.1 - cur.1))) (last, 0)).2
+  | some last => areaOPExactAcc last ring 0
 
 end Model
